@@ -248,8 +248,9 @@ class _WLog(list):
             self.snaps.append(self.observe())
 
 
-def make_watcher(kind, is_async=False, sync_callbacks=False):
-    """kind: 'plain' | 'ex' | 'upd'"""
+def make_watcher(kind, is_async=False, sync_callbacks=False, async_update=False):
+    """kind: 'plain' | 'ex' | 'upd'; async_update: a fully asynchronous watcher - the generic update() is a coroutine
+    function as well (the async enforcer has to await it like the operation-specific callbacks)"""
     log = _WLog()
 
     class W:
@@ -312,7 +313,7 @@ def make_watcher(kind, is_async=False, sync_callbacks=False):
 
         # the async enforcer awaits the operation-specific callbacks when they are coroutine functions and calls
         # the generic update() synchronously
-        for name in [n for n in dir(base) if n.startswith("update_for_") and getattr(base, n) is not None]:
+        for name in [n for n in dir(base) if (n.startswith("update_for_") or (async_update and n == "update")) and getattr(base, n) is not None]:
             fn = getattr(base, name)
 
             def mk(fn):
@@ -337,6 +338,7 @@ class Config:
         self.shape, self.adapter, self.watcher, self.is_async = shape, adapter, watcher, is_async
         self.listform = False  # single adds / removes pass the rule as one list argument instead of varargs
         self.sync_callbacks = False  # async enforcer with a watcher whose operation-specific callbacks are plain functions
+        self.async_update = False  # async enforcer with a watcher whose generic update() is a coroutine function too
         self.noq = False  # True: no decision / role queries after the calls (histories whose link state is outside the modelled domain)
         self.late = late  # the enforcer is built without an adapter, its flags are set, then set_adapter + load_policy
         self.text = text or shape  # key into TEXT (a textual variant of the same model shape)
@@ -353,7 +355,7 @@ class Config:
         )
 
     def key(self):
-        return (self.shape, self.text, self.matchfn, self.adapter, self.watcher, self.is_async, repr(self.initial), self.late, self.sync_callbacks, self.listform)
+        return (self.shape, self.text, self.matchfn, self.adapter, self.watcher, self.is_async, repr(self.initial), self.late, self.sync_callbacks, self.listform) + (("async_update",) if getattr(self, "async_update", False) else ())
 
 
 def build_enforcer(cfg, fail_after=None):
@@ -399,7 +401,7 @@ def build_enforcer(cfg, fail_after=None):
             ad.log.clear()
     w = None
     if cfg.watcher:
-        w = make_watcher(cfg.watcher, cfg.is_async, getattr(cfg, "sync_callbacks", False))
+        w = make_watcher(cfg.watcher, cfg.is_async, getattr(cfg, "sync_callbacks", False), getattr(cfg, "async_update", False))
         e.set_watcher(w)
 
         def observe():
@@ -824,7 +826,7 @@ def compare_history(res, cfg, hist, impl, answers, idx, queries, judge):
         res.evaluations += 1
         res.count("op:" + op[0])
         res.count("ret:" + (rec["ret"] if rec["ret"] in ("T", "F", "-") or rec["ret"].startswith("!") else "list"))
-        case = {"config": {"shape": cfg.shape, "text": cfg.text, "matchfn": cfg.matchfn, "adapter": cfg.adapter, "watcher": cfg.watcher, "async": cfg.is_async, "late": cfg.late, "sync_callbacks": cfg.sync_callbacks, "listform": cfg.listform, "initial": cfg.initial}, "history": [list(o) for o in hist[: i + 1]], "step": i}
+        case = {"config": {"shape": cfg.shape, "text": cfg.text, "matchfn": cfg.matchfn, "adapter": cfg.adapter, "watcher": cfg.watcher, "async": cfg.is_async, "late": cfg.late, "sync_callbacks": cfg.sync_callbacks, "async_update": getattr(cfg, "async_update", False), "listform": cfg.listform, "initial": cfg.initial}, "history": [list(o) for o in hist[: i + 1]], "step": i}
         model = {"ret": mret, "acalls": acalls, "wcalls": wcalls, "events": events, "obs": obs, "answers": [m for m, _ in qa], "fresh": [s for _, s in qa]}
         # ---- the tie: implementation vs model
         diffs = []
